@@ -13,7 +13,7 @@
    observers of Obs.tla can be composed with this module (MC_*.tla) and recorded traces can be
    validated against it (Trace_Broker.tla).
 
-   Not modelled: the introspection database (BrokerIntro.tla), message/byte statistics.        *)
+   Not modelled: message/byte statistics, timestamps.                                            *)
 EXTENDS Naturals, Integers, Sequences, FiniteSets, FiniteSetsExt, SequencesExt
 
 CONSTANT B                      \* limb base of capacities (U32.tla)
@@ -69,6 +69,8 @@ M_EmitBusEvent(lc, be, ouuid, ocookie, suuid, scookie) ==
   [k |-> "EmitBusEvent", lc |-> lc, be |-> be, ouuid |-> ouuid, ocookie |-> ocookie, suuid |-> suuid, scookie |-> scookie]
 M_BusListenerCurrentFinished(L) == [k |-> "BusListenerCurrentFinished", cookie |-> L]
 M_Shutdown == [k |-> "Shutdown"]
+M_QueryIntrospection(s, tid) == [k |-> "QueryIntrospection", serial |-> s, tid |-> tid]
+M_QueryIntrospectionReply(s, res, val) == [k |-> "QueryIntrospectionReply", serial |-> s, res |-> res, val |-> val]
 InfoRec(ok, ver, tid, sa) == [ok |-> ok, ver |-> ver, tid |-> tid, sa |-> sa]
 
 \* ---------------------------------------------------------------------------------------------
@@ -97,6 +99,9 @@ BrokerInit ==
     nextSerial |-> 0,          \* SerialMap.next
     chans |-> EmptyFn,         \* channels: cookie -> [snd, rcv : [st, owner, cap]]
     lsts |-> EmptyFn,          \* bus_listeners: cookie -> [conn, filters, scope, allObjs, specificSvcs]
+    intro |-> EmptyFn,         \* IntrospectionDatabase: TypeId -> [conns, cached, val, qconn, qserial, pending]
+    queryIntro |-> EmptyFn,    \* query_introspection: serial -> TypeId
+    nextQSerial |-> 0,
     work |-> EmptyWork,        \* State: the ten deferred lists, as bags
     shutdownNow |-> FALSE, shutdownIdle |-> FALSE,
     stats |-> [conns |-> 0, objs |-> 0, svcs |-> 0, chans |-> 0, lsts |-> 0],
@@ -761,9 +766,111 @@ H_StopBusListener(b, c, m) ==
     THEN ReplyTail([b EXCEPT !.lsts[m.cookie].scope = "None"], c, M_StopBusListenerReply(m.serial, "Ok"))
     ELSE ReplyTail(b, c, M_StopBusListenerReply(m.serial, "NotStarted"))
 
+
+\* --- introspection (broker.rs register_introspection ... remove_introspection_conn;
+\*     introspection_database.rs).  `pick.conn` resolves query_random_conn (TypeId -> connection),
+\*     `pick.order` the hash order in which remove_conn visits the entries it re-queries. ---
+NewIntroEntry == [conns |-> {}, cached |-> FALSE, val |-> 0, qconn |-> -1, qserial |-> 0, pending |-> <<>>]
+
+\* IntrospectionEntry::remove_conn: returns the entry and whether it is retained
+EntryRemoveConn(e, c) ==
+  LET e1 == IF e.qconn = c THEN [e EXCEPT !.qconn = -1, !.qserial = 0] ELSE e
+      e2 == [e1 EXCEPT !.pending = SelectSeq(@, LAMBDA p : p.conn # c)] IN
+  IF c \in e2.conns
+    THEN LET cs == e2.conns \ {c} IN [e |-> [e2 EXCEPT !.conns = cs], retain |-> cs # {}]
+    ELSE [e |-> e2, retain |-> TRUE]
+
+\* a new query for type `tid`: fresh serial, random registered connection, send (failure => remove_conn)
+StartQuery(b0, tid, pick) ==
+  LET serial == FreeSerial(DOMAIN b0.queryIntro, b0.nextQSerial)
+      x == pick.conn[tid]
+      b1 == Chk(b0, x \in b0.intro[tid].conns, "query_random_conn: pick outside the registered connections")
+      b2 == Chk(b1, b1.intro[tid].qconn = -1, "IntrospectionEntry::query_random_conn debug_assert(queried.is_none())")
+      b3 == [b2 EXCEPT !.queryIntro = Put(@, serial, tid), !.nextQSerial = IF serial = SerialWrap THEN 0 ELSE serial + 1,
+                       !.intro[tid].qconn = x, !.intro[tid].qserial = serial]
+      b4 == Chk(b3, x \in DOMAIN b3.conns, "query_introspection: conns.get(conn_id) expect")
+  IN IF b4.panic # "" THEN b4
+     ELSE LET b5 == Send(b4, x, M_QueryIntrospection(serial, tid), 0) IN
+          IF SendOk(b4, x) THEN b5 ELSE PushRemoveConn(b5, x, FALSE)
+
+\* answers all `pending` queries; `expect` selects the handler variant that requires the connection to exist
+AnswerPending(b0, pending, res, val, expect) ==
+  FoldLeft(LAMBDA acc, p :
+             IF p.conn \notin DOMAIN acc.conns
+               THEN (IF expect THEN Chk(acc, FALSE, "query_introspection_reply: conns.get(pending) expect") ELSE acc)
+               ELSE LET a1 == Send(acc, p.conn, M_QueryIntrospectionReply(p.serial, res, val), 0) IN
+                    IF SendOk(acc, p.conn) THEN a1 ELSE PushRemoveConn(a1, p.conn, FALSE),
+           b0, pending)
+
+H_RegisterIntrospection(b, c, m) ==
+  IF Gone(b, c) THEN Ok(b)
+  ELSE IF Ver(b, c) < 17 THEN Err(b)
+  ELSE IF ~m.ok THEN Err(b)
+  ELSE Ok(FoldLeft(LAMBDA acc, t :
+                     LET e == IF t \in DOMAIN acc.intro THEN acc.intro[t] ELSE NewIntroEntry IN
+                     [acc EXCEPT !.intro = Put(@, t, [e EXCEPT !.conns = @ \cup {c}])],
+                   b, m.tids))
+
+H_QueryIntrospection(b, c, m, pick) ==
+  IF Gone(b, c) THEN Ok(b)
+  ELSE IF Ver(b, c) < 17 THEN Err(b)
+  ELSE IF m.tid \notin DOMAIN b.intro THEN ReplyTail(b, c, M_QueryIntrospectionReply(m.serial, "Unavailable", 0))
+  ELSE LET e == b.intro[m.tid] IN
+       IF e.cached THEN ReplyTail(b, c, M_QueryIntrospectionReply(m.serial, "Ok", e.val))
+       ELSE LET b1 == [b EXCEPT !.intro[m.tid].pending = Append(@, [conn |-> c, serial |-> m.serial])] IN
+            Ok(IF e.qconn = -1 THEN StartQuery(b1, m.tid, pick) ELSE b1)
+
+H_QueryIntrospectionReply(b, c, m, pick) ==
+  IF Gone(b, c) THEN Ok(b)
+  ELSE IF Ver(b, c) < 17 THEN Err(b)
+  ELSE IF m.serial \notin DOMAIN b.queryIntro THEN Err(b)
+  ELSE
+    LET tid == b.queryIntro[m.serial]
+        b0 == Chk(b, tid \in DOMAIN b.intro, "IntrospectionDatabase::query_replied panic(inconsistent state)") IN
+    IF b0.panic # "" THEN Ok(b0) ELSE
+    LET e == b0.intro[tid] IN
+    IF e.qconn # c THEN Err(b0)                             \* query_replied returned None
+    ELSE
+      LET b1 == Chk(Chk(b0, e.qserial = m.serial, "IntrospectionEntry::query_replied debug_assert_eq(serial)"),
+                    ~e.cached, "IntrospectionEntry::query_replied debug_assert(introspection.is_none())")
+          e1 == [e EXCEPT !.qconn = -1, !.qserial = 0]
+          b2 == [b1 EXCEPT !.queryIntro = Del(@, {m.serial})] IN
+      IF m.res = "Ok"
+        THEN Ok(AnswerPending([b2 EXCEPT !.intro[tid] = [e1 EXCEPT !.pending = <<>>, !.cached = TRUE, !.val = m.val]],
+                              e1.pending, "Ok", m.val, TRUE))
+        ELSE LET r == EntryRemoveConn(e1, c) IN
+             IF r.retain THEN Ok(StartQuery([b2 EXCEPT !.intro[tid] = r.e], tid, pick))
+             ELSE Ok(AnswerPending([b2 EXCEPT !.intro = Del(@, {tid})], r.e.pending, "Unavailable", 0, TRUE))
+
+\* remove_introspection_conn (end of shutdown_connection)
+RemoveIntrospectionConn(b0, c, pick) ==
+  LET step(acc, tid) ==
+        LET e == acc.b.intro[tid]
+            was == e.qconn # -1
+            r == EntryRemoveConn(e, c)
+            lostQuery == was /\ r.e.qconn = -1
+            b1 == IF r.retain THEN [acc.b EXCEPT !.intro[tid] = IF lostQuery /\ ~r.retain THEN r.e ELSE r.e]
+                              ELSE [acc.b EXCEPT !.intro = Del(@, {tid})]
+        IN [b |-> b1,
+            res |-> IF lostQuery THEN Append(acc.res, [serial |-> e.qserial, tid |-> tid, cont |-> r.retain, pending |-> IF r.retain THEN <<>> ELSE r.e.pending])
+                                 ELSE acc.res]
+      a == SFold(step, [b |-> b0, res |-> <<>>], DOMAIN b0.intro)
+      \* pending queries of retained entries stay; of removed entries they are answered below
+      \* HashMap::retain visits the entries in hash order: re-queries happen in the order `pick.order`
+      inOrder == SelectSeq(pick.order, LAMBDA t : \E i \in 1..Len(a.res) : a.res[i].tid = t)
+      ordered == [i \in 1..Len(inOrder) |-> a.res[CHOOSE j \in 1..Len(a.res) : a.res[j].tid = inOrder[i]]]
+                 \o SelectSeq(a.res, LAMBDA x : \A i \in 1..Len(pick.order) : pick.order[i] # x.tid)
+  IN FoldLeft(LAMBDA acc, x :
+                LET a1 == Chk(acc, x.serial \in DOMAIN acc.queryIntro, "remove_introspection_conn: query_introspection.remove expect")
+                    a2 == [a1 EXCEPT !.queryIntro = Del(@, {x.serial})] IN
+                IF a1.panic # "" THEN a1
+                ELSE IF x.cont THEN (IF x.tid \in DOMAIN a2.intro THEN StartQuery(a2, x.tid, pick) ELSE a2)
+                ELSE AnswerPending(a2, x.pending, "Unavailable", 0, FALSE),
+              a.b, ordered)
+
 \* ---------------------------------------------------------------------------------------------
 \* handle_message: dispatch; every broker-to-client kind and the handshake kinds are Err
-HandleMessage(b, c, m, k) ==
+HandleMessage(b, c, m, k, pick) ==
   CASE m.k = "CreateObject" -> H_CreateObject(b, c, m, k)
     [] m.k = "DestroyObject" -> H_DestroyObject(b, c, m)
     [] m.k = "CreateService" -> H_CreateService(b, c, m, k)
@@ -795,10 +902,13 @@ HandleMessage(b, c, m, k) ==
     [] m.k = "ClearBusListenerFilters" -> H_ClearFilters(b, c, m)
     [] m.k = "StartBusListener" -> H_StartBusListener(b, c, m)
     [] m.k = "StopBusListener" -> H_StopBusListener(b, c, m)
+    [] m.k = "RegisterIntrospection" -> H_RegisterIntrospection(b, c, m)
+    [] m.k = "QueryIntrospection" -> H_QueryIntrospection(b, c, m, pick)
+    [] m.k = "QueryIntrospectionReply" -> H_QueryIntrospectionReply(b, c, m, pick)
     [] OTHER -> Err(b)
 
 \* shutdown_connection
-ShutdownConnection(b0, c, sd) ==
+ShutdownConnection(b0, c, sd, pick) ==
   IF c \notin DOMAIN b0.conns THEN b0
   ELSE
     LET cs == b0.conns[c]
@@ -814,7 +924,8 @@ ShutdownConnection(b0, c, sd) ==
         b8 == SFold(LAMBDA acc, k : RemoveChannelEnd(acc, k, "Sender", c), b7, cs.senders)
         b9 == SFold(LAMBDA acc, k : RemoveChannelEnd(acc, k, "Receiver", c), b8, cs.receivers)
         b10 == SFold(LAMBDA acc, s : Push(acc, "abortCall", [serial |-> cs.calls[s].bs, callee |-> cs.calls[s].callee]), b9, DOMAIN cs.calls)
-    IN [b10 EXCEPT !.stats.conns = IF @ > 0 THEN @ - 1 ELSE 0]
+        b11 == [b10 EXCEPT !.stats.conns = IF @ > 0 THEN @ - 1 ELSE 0]
+    IN RemoveIntrospectionConn(b11, c, pick)
 
 \* emit_bus_event: once per connection (dups), failures collected into remove_conns
 EmitBusEvent(b0, isObj, be, ouuid, ocookie, suuid, scookie) ==
@@ -844,13 +955,13 @@ AbortCall(b0, serial, callee) ==
          ELSE b2
 
 \* handle_event
-HandleEvent(b0, ev, k) ==
+HandleEvent(b0, ev, k, pick) ==
   LET b == [b0 EXCEPT !.out = <<>>] IN
   CASE ev.t = "new" ->
          LET b1 == Chk(b, ev.c \notin DOMAIN b.conns, "handle_event: NewConnection dup debug_assert") IN
          [b1 EXCEPT !.conns = Put(@, ev.c, NewConnState(ev.ver)), !.stats.conns = @ + 1]
     [] ev.t = "shut" -> PushRemoveConn(b, ev.c, FALSE)
-    [] ev.t = "msg" -> LET r == HandleMessage(b, ev.c, ev.m, k) IN
+    [] ev.t = "msg" -> LET r == HandleMessage(b, ev.c, ev.m, k, pick) IN
                        IF r.err THEN PushRemoveConn(r.b, ev.c, FALSE) ELSE r.b
     [] ev.t = "sdb" -> [SFold(LAMBDA acc, x : PushRemoveConn(acc, x, TRUE), b, DOMAIN b.conns) EXCEPT !.shutdownNow = TRUE]
     [] ev.t = "sdi" -> [b EXCEPT !.shutdownIdle = TRUE]
@@ -863,9 +974,9 @@ TopClass(b) == WorkOrder[CHOOSE i \in 1..Len(WorkOrder) :
                    b.work[WorkOrder[i]] # EmptyFn /\ \A j \in 1..(i - 1) : b.work[WorkOrder[j]] = EmptyFn]
 
 \* processing of one popped item `w` of class `cl`
-ProcessWork(b0, cl, w) ==
+ProcessWork(b0, cl, w, pick) ==
   LET b == [b0 EXCEPT !.out = <<>>, !.work[cl] = BagDel(@, w)] IN
-  CASE cl = "removeConn" -> ShutdownConnection(b, w.c, w.sd)
+  CASE cl = "removeConn" -> ShutdownConnection(b, w.c, w.sd, pick)
     [] cl = "unsubscribeEvent" ->
          IF w.c \notin DOMAIN b.conns THEN b
          ELSE LET s == Send(b, w.c, M_UnsubscribeEvent(w.svc, w.ev), 0) IN
@@ -942,10 +1053,15 @@ Dump(b) ==
                 LET L == SetToSeq(DOMAIN b.lsts)[i]  l == b.lsts[L] IN
                 [cookie |-> L, conn |-> l.conn, filters |-> SetToSeq(l.filters), scope |-> l.scope,
                  allObjs |-> l.allObjs, specificSvcs |-> l.specificSvcs]],
-    intro |-> <<>>, queryIntro |-> <<>>,
+    intro |-> [i \in 1..Cardinality(DOMAIN b.intro) |->
+                 LET t == SetToSeq(DOMAIN b.intro)[i]  e == b.intro[t] IN
+                 [tid |-> t, conns |-> SetToSeq(e.conns), indexOk |-> TRUE, cached |-> e.cached, qconn |-> e.qconn,
+                  qserial |-> e.qserial, pending |-> e.pending]],
+    queryIntro |-> [i \in 1..Cardinality(DOMAIN b.queryIntro) |->
+                      LET q == SetToSeq(DOMAIN b.queryIntro)[i] IN [serial |-> q, tid |-> b.queryIntro[q]]],
     shutdownNow |-> b.shutdownNow, shutdownIdle |-> b.shutdownIdle,
     stats |-> [conns |-> b.stats.conns, objs |-> b.stats.objs, svcs |-> b.stats.svcs, chans |-> b.stats.chans,
-               lsts |-> b.stats.lsts, intros |-> 0] ]
+               lsts |-> b.stats.lsts, intros |-> Cardinality(DOMAIN b.intro)] ]
 
 \* ---------------------------------------------------------------------------------------------
 \* structural invariants (also what the C09 clauses of the observer see through the dump)
@@ -1002,6 +1118,14 @@ StatsExact(b) ==
   /\ b.stats.conns = Cardinality(DOMAIN b.conns) /\ b.stats.objs = Cardinality(DOMAIN b.objs)
   /\ b.stats.svcs = Cardinality(DOMAIN b.svcs) /\ b.stats.chans = Cardinality(DOMAIN b.chans)
   /\ b.stats.lsts = Cardinality(DOMAIN b.lsts)
+IntroConsistent(b) ==
+  /\ \A t \in DOMAIN b.intro : LET e == b.intro[t] IN
+       /\ e.conns # {} /\ e.conns \subseteq DOMAIN b.conns
+       /\ e.qconn # -1 => (e.qconn \in e.conns /\ e.qserial \in DOMAIN b.queryIntro /\ b.queryIntro[e.qserial] = t /\ ~e.cached)
+       /\ \A i \in 1..Len(e.pending) : e.pending[i].conn \in DOMAIN b.conns
+       /\ e.pending # <<>> => (e.qconn # -1 /\ ~e.cached)
+  /\ \A q \in DOMAIN b.queryIntro : b.queryIntro[q] \in DOMAIN b.intro /\ b.intro[b.queryIntro[q]].qserial = q
+                                     /\ b.intro[b.queryIntro[q]].qconn # -1
 \* at a step boundary (work lists empty) everything holds at once
-Consistent(b) == CookieIndexes(b) /\ MirrorsAgree(b) /\ OwnersLive(b) /\ CallsIndexed(b) /\ CreditOrder(b) /\ StatsExact(b)
+Consistent(b) == CookieIndexes(b) /\ MirrorsAgree(b) /\ OwnersLive(b) /\ CallsIndexed(b) /\ CreditOrder(b) /\ StatsExact(b) /\ IntroConsistent(b)
 =============================================================================
